@@ -291,5 +291,5 @@ PROPS['C20'] = {
     'bounds': {'quick': '4 corner build configurations {g++ c++11 -O2, g++ c++17 -O0, clang++ c++11 -O0, clang++ c++20 -O2} x list/queue/pool program sets (depth 3-5) + std::string dispatch cells under g++/clang++ c++14', 'thorough': 'all 16 build configurations x all program sets (depth 4-7), 12 for the dispatch cells'},
     'technique': 'bounded exhaustive exploration of identical generated programs under a product of build and policy configurations, with cross-configuration comparison of the complete observable trace',
     'cross_config': _c20_group,
-    'deadline': {'quick': 170, 'thorough': 1700},
+    'deadline': {'quick': 300, 'thorough': 2400},
 }
